@@ -129,6 +129,9 @@ for _lit in ("'ab'", "'abcdef'", "b'ab'", 'None', 'True', 'False', '0.0', '1.0',
 # programs that reproduce the recorded known findings (genuine defects of the pinned tree that were not repaired): tagged so that they
 # are reported as KNOWN-FINDING and any OTHER failure is still a violation
 KNOWN_PROGRAMS = {
+    "def declare():\n    global eval\ndef compute(value):\n    doubled=value*2\n    return eval('doubled+value')\nprint(compute(2))": 'global-declaration-hides-reflective-builtin',
+    "class Factory:\n    def create(config_name, extra=1):\n        return config_name, extra\n    create=staticmethod(create)\nprint(Factory.create(config_name='x'))": 'old-style-staticmethod-first-parameter',
+    "def pick(flag):\n    if flag:\n        return 'abcd'\n    return 'abcd'\nprint(pick(1))": 'hoisted-literal-after-keyword',
     "def noisy():\n    print('annotation evaluated')\n    return int\ndef annotated(x: noisy()) -> noisy():\n    return x\nprint(annotated(1))": 'annotation-with-side-effect-removed',
 }
 # control flow: an early return inside every kind of nested suite, observable through what runs afterwards
@@ -152,12 +155,24 @@ _uses = '+'.join('value_%d*value_%d+value_%d' % (k, k, k) for k in range(60))
 PROGRAMS.append('def many_names():\n' + '\n'.join(_many) + '\n    i=1000\n    j=2000\n    return ' + _uses + '+i+j\nprint(many_names())')
 PROGRAMS.append('\n'.join('global_value_%d=%d' % (k, k) for k in range(60)) + '\ni=1000\ndef use_globals():\n    return ' +
                 '+'.join('global_value_%d*global_value_%d' % (k, k) for k in range(60)) + '+i\nprint(use_globals())')
+# zero-argument super() used often enough to be worth an alias, with globals renamed
+PROGRAMS.append("class Base:\n    def first(self):\n        return 1\n    def second(self):\n        return 2\n    def third(self):\n        return 3\n"
+                "class Derived(Base):\n    def first(self):\n        return super().first()+10\n    def second(self):\n        return super().second()+10\n"
+                "    def third(self):\n        return super().third()+super().first()+super().second()\nprint(Derived().first(),Derived().second(),Derived().third())")
+# hoisted literals used inside comprehensions / lambdas / class bodies nested in the function that receives the alias
+PROGRAMS += [
+    "def render(rows):\n    return ['<td>'+str(cell)+'</td>'+'<td>' for cell in rows],['<td>' for _ in rows],'<td>'\nprint(render([1,2]))",
+    "def table(rows):\n    cells=[('<td class=x>', value, '<td class=x>') for value in rows]\n    pick=lambda *values: ('<td class=x>', values)\n    class Row:\n        tag='<td class=x>'\n        other='<td class=x>'\n    return cells,pick(1),Row.tag\nprint(table([1]))",
+    "__all__=['public_function']\nMESSAGE='a module level text that repeats'\ndef public_function():\n    return 'a module level text that repeats','a module level text that repeats','a module level text that repeats'\nprint(public_function(),MESSAGE)",
+    "def masks(flags):\n    return flags&(1<<17),flags|(1<<18),flags^(255<<16),flags&(1<<19)\nprint(masks(3))",
+]
 PROGRAMS += list(KNOWN_PROGRAMS)
 # fixed in 7a1a7a4 / f054637 / 3bb1e82: a regression is an ordinary violation
 PROGRAMS.append("class Base:\n    marker='from Base'\nobject=Base\nclass Derived(object):\n    pass\nprint(Derived.marker)")
 PROGRAMS.append("value='global value'\ndef outer():\n    value='function value'\n    class Inner:\n        seen=value\n        value='class value'\n    return Inner.seen\nprint(outer())")
 PROGRAMS.append("def collect(a, /, **kw):\n    return a, sorted(kw.items())\nprint(collect(1, a=2))")
 
+CLASS_TAINT = "class Formula:\n    def __init__(self, text):\n        self.text=text\n    def eval(self, area_value):\n        doubled_value=area_value*2\n        return eval(self.text)\nprint(Formula('doubled_value+area_value').eval(2))"
 TAINT_TRIGGERS = ["eval('1+1')", "exec('pass')", "sorted(k for k in locals() if not k.startswith('_'))", "len(globals())>0", "isinstance(vars(), dict)",
                   "vars(sys.modules[__name__]) is not None"]
 TAINT_TEMPLATE = "import sys\nmodule_constant='some repeated text'\ndef tainted_function(first_parameter):\n    local_variable='some repeated text'\n    other_local=first_parameter+1\n    observed=%s\n    return local_variable,other_local,'some repeated text','some repeated text',observed\nprint(tainted_function(1)[:4],module_constant)"
@@ -385,6 +400,8 @@ def size_mechanism(src, kw, growth):
                     rebinds += 1
     if rebinds and growth <= 4 * rebinds:
         return 'param-rebind-before-compound-statement'
+    if src in KNOWN_PROGRAMS and KNOWN_PROGRAMS[src] == 'hoisted-literal-after-keyword':
+        return 'hoisted-literal-after-keyword'
     return 'other'
 
 
@@ -506,8 +523,9 @@ def main(argv):
         except Exception as e:
             fails.append({'oracle': 'compile', 'options': 'size', 'input': src, 'failure': 'minify raised %s' % type(e).__name__})
     # freeze
-    for trig in TAINT_TRIGGERS:
-        for src in (TAINT_TEMPLATE % trig,):
+    extra_taint = [p for p, m in KNOWN_PROGRAMS.items() if m == 'global-declaration-hides-reflective-builtin'] + [CLASS_TAINT]
+    for trig in TAINT_TRIGGERS + extra_taint:
+        for src in ((TAINT_TEMPLATE % trig,) if trig not in extra_taint else (trig,)):
             for label, opts in OPTION_SETS + [('everything', dict(rename_globals=True, remove_literal_statements=True))]:
                 cases += 1
                 out = python_minifier.minify(src, **opts)
